@@ -14,8 +14,8 @@ RULE = ('cases = (input string, configuration); exhaustive strings up to the bou
         'BEM, comments, JSX, wrap text (string / list / empty), contexts, maxRepeat. Non-trivial = the call raised a parse error or '
         'returned a non-empty string; distinct by (config name, input)')
 ASSUMPTIONS = ['custom snippets in configurations are valid, so an error position always refers to the input',
-               'repeat counts are bounded (single digit alphabet in the enumeration, maxRepeat=300 in mutation/random workloads) and nesting <= 40: '
-               'RecursionError/MemoryError on huge inputs are not what is measured',
+               'repeat counts are bounded (single digit alphabet in the enumeration, maxRepeat <= 300 in the other workloads) and lorem word counts < 10^5: time and '
+               'memory proportional to a count are not what is measured. Nesting is driven to 120 levels in D1; 400-2500 levels are D2 (open finding: RecursionError)',
                'termination is decided on logical steps (20M line events), never on wall clock']
 MARKUP_ALPHA = list('a1$#*@-.>+^()[]{}"\'\\ =/:!')
 CSS_ALPHA = list('a1$#-.+!,:()@%"\' t{}/')
@@ -190,6 +190,21 @@ import re as _re
 RE_BIG_LOREM = _re.compile(r'lorem[a-z]*(?:\d*-)?(\d{5,})', _re.I)
 
 
+DEEP_M = [lambda n: '>'.join(['b'] * n), lambda n: '>'.join(['div.c', 'p{t}', 'ul', 'li#i', 'span[a=b]'] * (n // 5)), lambda n: '(' * n + 'a' + ')' * n,
+          lambda n: '(a>' * n + 'b' + ')' * n, lambda n: 'a' + '{' * n + 'x' + '}' * n, lambda n: '(b+' * n + 'i' + ')' * n, lambda n: '>'.join(['x{${1}}'] * n),
+          lambda n: 'b>' * n + 'i' + '^' * (n // 2) + 'em', lambda n: '>'.join(['.b_e'] * n)]
+DEEP_C = [lambda n: 'p:' + 'a(' * n + '1' + ')' * n, lambda n: 'p' + '(' * n + '1' + ')' * n, lambda n: 'c:' + 'rgb(' * n + '0,0,0' + ')' * n]
+
+
+def _recursion_limit_on_deep_nesting(rec):
+    """Parser, converter, tree walkers and formatters recurse once (a few frames) per nesting level: children nested about 245 deep,
+    groups or function arguments about 490 deep exhaust the interpreter's default recursion limit."""
+    if rec['kind'] != 'internal-error' or rec['detail']['exc'][0] != 'RecursionError':
+        return False
+    s = rec['case']['input']
+    return s.count('>') + s.count('(') + s.count('{') >= 240
+
+
 def _lorem_count_beyond_conversion_limit(rec):
     """`lorem<N>` takes its word count from the element name with int(): the count is unbounded (time and memory grow
     with it), and beyond the interpreter's int conversion limit the conversion itself raises ValueError."""
@@ -197,7 +212,7 @@ def _lorem_count_beyond_conversion_limit(rec):
         return False
     d = rec['detail']
     m = RE_BIG_LOREM.search(rec['case']['input'])
-    return bool(m and len(m.group(1)) > 4300 and d['exc'][0] == 'ValueError' and 'lorem' in str(d['exc'][1]) and 'integer string conversion' in d.get('msg', ''))
+    return bool(m and len(m.group(1)) > 4300 and d['exc'][0] == 'ValueError' and 'integer string conversion' in d.get('msg', ''))
 
 
 def run_shard(desc, ctx):
@@ -244,6 +259,16 @@ def run_shard(desc, ctx):
                     for s in ('p${%s}' % run, 'p${%s:x}' % run, 'p' + run, 'p.' + run, 'p-' + run, 'c#' + run, 'c#f.' + run, '@w' + run, 'p%s.%s' % (run, run), 'z' + run,
                               'p%se' % run, 'bd1-s#f.' + run):
                         mon.check(s, 'css', {'type': 'stylesheet'}, 'css:extreme-run')
+            # nesting depth: D1 (must hold) up to 120 levels; D2 = beyond the interpreter's recursion limit (open finding)
+            for depth_n, dom in [(30, 'd1'), (80, 'd1'), (120, 'd1'), (400, 'd2'), (1000, 'd2'), (2500, 'd2')]:
+                for make in DEEP_M:
+                    name, cfg = rng.choice(MARKUP_CFGS)
+                    cfg = dict(cfg)
+                    cfg.setdefault('maxRepeat', 3)
+                    mon.check(make(depth_n), name, cfg, 'markup:deep-nesting' if dom == 'd1' else 'markup:deep-nesting:d2-recursion')
+                for make in DEEP_C:
+                    name, cfg = rng.choice(CSS_CFGS)
+                    mon.check(make(depth_n), name, cfg, 'css:deep-nesting' if dom == 'd1' else 'css:deep-nesting:d2-recursion')
             for i in range(desc['n']):
                 a = rng.choice(SEEDS_M) if rng.random() < 0.5 else gen_abbr.random_abbreviation(rng)
                 for m in mutations(a, MUT_CHARS_M, rng, 12):
@@ -304,4 +329,5 @@ def replay(case, ctx):
     Mon(ctx).check(case['input'], case['config_name'], case['config'], 'replay')
 
 
-CLASSIFIERS = {'C07-lorem-count-beyond-int-conversion-limit': _lorem_count_beyond_conversion_limit}
+CLASSIFIERS = {'C07-lorem-count-beyond-int-conversion-limit': _lorem_count_beyond_conversion_limit,
+               'C07-recursion-limit-on-deep-nesting': _recursion_limit_on_deep_nesting}
